@@ -1,0 +1,15 @@
+//go:build verif
+
+package remoting
+
+import (
+	"net"
+
+	"github.com/kercylan98/vivid"
+)
+
+// VerifNewConnActor builds the per-connection reader actor on an already established
+// connection (no handshake), for the verification harness.
+func VerifNewConnActor(conn net.Conn, codec vivid.Codec, handler NetworkEnvelopHandler) vivid.Actor {
+	return &tcpConnectionActor{conn: conn, codec: codec, envelopHandler: handler, advertiseAddr: "verif"}
+}
